@@ -40,7 +40,10 @@ def observe_tablecheck(vec: Dict[str, Any]) -> Dict[str, Any]:
     with warnings.catch_warnings(record=True) as wlog:
         warnings.simplefilter("always")
         n = len(vec["x"])
-        df = pd.DataFrame({"x": _col(vec["x"]), "y": _col(vec["y"])}, index=[10 * (i + 1) for i in range(n)])
+        ixk = vec.get("ix", "unique")
+        labels = [10 * ((i + 2) // 2 if ixk in ("dup", "multidup") else i + 1) for i in range(n)]
+        index = pd.MultiIndex.from_arrays([labels, [0] * n], names=["p", "q"]) if ixk.startswith("multi") else pd.Index(labels)
+        df = pd.DataFrame({"x": _col(vec["x"]), "y": _col(vec["y"])}, index=index)
         fn, ew = _fn(vec["pred"])
         kw: Dict[str, Any] = {"ignore_na": bool(vec["ina"]), "element_wise": ew}
         if vec["nfc"]:
@@ -59,8 +62,8 @@ def observe_tablecheck(vec: Dict[str, Any]) -> Dict[str, Any]:
                 out[mode + "_same"] = bool(res.equals(df))
             except pa.errors.SchemaErrors as e:
                 out[mode] = "SchemaErrors"
-                fc = e.failure_cases
-                out["lazy_rows"] = sorted({int(i) // 10 for i in fc["index"].dropna().tolist()}) if "index" in fc else []
+                out["check_error"] = sorted({x.reason_code.name for x in e.schema_errors if x.reason_code.name == "CHECK_ERROR"})
+                out["check_error_msg"] = [str(x.failure_cases)[:120] for x in e.schema_errors if x.reason_code.name == "CHECK_ERROR"][:1]
             except pa.errors.SchemaError:
                 out[mode] = "SchemaError"
             except Exception as e:  # noqa: BLE001
